@@ -795,6 +795,13 @@ func (g *TG) Case() *ExecCase {
 	for i := 0; i < n; i++ {
 		s.Stmts = append(s.Stmts, g.Stmt())
 	}
+	// sometimes an earlier statement comes again, word for word, later in the script (two
+	// distant parts of a script that agree exactly is not something independent draws produce)
+	if len(s.Stmts) > 0 && g.pct("repeat.stmt", 6) {
+		tmp := (&Script{Stmts: []*Stmt{s.Stmts[g.n("repeat.which", 0, len(s.Stmts)-1)]}}).Clone()
+		at := g.n("repeat.at", 1, len(s.Stmts))
+		s.Stmts = append(s.Stmts[:at], append([]*Stmt{tmp.Stmts[0]}, s.Stmts[at:]...)...)
+	}
 	s.Vars = g.Decls
 	ec := &ExecCase{Script: s, Vars: g.Vars, Meta: g.Meta, Balances: map[string]map[string]string{}}
 	for a, m := range g.Bal {
